@@ -18,7 +18,7 @@ from .interp import Interp, SpecOpt, is_sym
 from . import lib as L
 
 OBLIG_TIMEOUT_MS = 20000
-UNIT_BUDGET_S = {"quick": 420, "thorough": 3600}  # wall time per unit before it counts as outside reach
+UNIT_BUDGET_S = {"quick": 900, "thorough": 3600}  # wall time per unit before it counts as outside reach (no unit of the unchanged tree needs more than 30 s; the margin is for changed code on a busy machine)
 
 
 class Clause:
